@@ -145,6 +145,12 @@ func (mc *MemCtx) Sel(m *MemNode, obj, off *Term) *Term {
 	}
 	tb := mc.tb
 	var r *Term
+	if off.Op == "ite" && iteOfSums(off) && m.kind != mBase && m.kind != mZero {
+		// an offset that is one of two base+constant alternatives: read both (folds syntactically)
+		r = tb.Ite(off.Args[0], mc.Sel(m, obj, off.Args[1]), mc.Sel(m, obj, off.Args[2]))
+		mc.selMem[key] = r
+		return r
+	}
 	switch m.kind {
 	case mBase:
 		r = tb.UF(m.name, m.sort, obj, off)
